@@ -191,12 +191,21 @@ impl FromStr for Id {
 
         let mut bytes = Vec::with_capacity(s.len() / 2);
 
-        for i in 0..s.len() / 2 {
-            let byte_str = &s[i * 2..(i * 2) + 2];
-            if let Ok(byte) = u8::from_str_radix(byte_str, 16) {
-                bytes.push(byte);
-            } else {
-                return Err(DecodeIdError::InvalidHexCharacter(byte_str.into()));
+        // Work on bytes: slicing the `str` panics inside multi-byte characters, and
+        // `from_str_radix` accepts a leading sign.
+        for pair in s.as_bytes().chunks(2) {
+            match (
+                (pair[0] as char).to_digit(16),
+                (pair[1] as char).to_digit(16),
+            ) {
+                (Some(high), Some(low)) if pair[0].is_ascii() && pair[1].is_ascii() => {
+                    bytes.push((high * 16 + low) as u8)
+                }
+                _ => {
+                    return Err(DecodeIdError::InvalidHexCharacter(
+                        String::from_utf8_lossy(pair).into(),
+                    ))
+                }
             }
         }
 
